@@ -64,7 +64,7 @@ class Gate:
     def token(self, tid, real):
         with self.cv:
             self._skip()
-            ok = self.cv.wait_for(lambda: self.idx >= len(self.sched) or self.sched[self.idx] == tid, timeout=30)
+            ok = self.cv.wait_for(lambda: self.idx >= len(self.sched) or self.sched[self.idx] == tid, timeout=5)
             if not ok:
                 self.deadlock = True
                 self.idx = len(self.sched)
@@ -168,6 +168,13 @@ class Rig:
         n = len(inputs)
         self.gate = Gate(sched) if sched is not None else None
         gate = self.gate
+        if getattr(self, "deadlocks", 0) >= 4 and gate is not None:
+            # the turn-taking scheduler has already dead-locked several times in this run (each costs a time-out):
+            # the remaining scheduled runs are reported as dead-locked without being executed, so that a broken
+            # locking discipline makes the check FAIL FAST instead of hanging for hours
+            gate.deadlock = True
+            self.gate = None
+            return [None] * n, gate
         self.clones = {}
         results = [None] * n
         barrier = threading.Barrier(n)
@@ -192,9 +199,12 @@ class Rig:
             for t in ths:
                 t.start()
             for t in ths:
-                t.join(60)
+                t.join(20)
         finally:
             sys.setswitchinterval(old)
+        if gate is not None and (gate.deadlock or any(t.is_alive() for t in ths)):
+            gate.deadlock = True
+            self.deadlocks = getattr(self, "deadlocks", 0) + 1
         self.gate = None
         return results, gate
 
@@ -446,6 +456,19 @@ def correspond(model_ok, res):
             inputs[t] = [pool[(i * 7 + t * 13 + j * n + t) % len(pool)] for j in range(per)]
         outs, _ = rig.run(inputs, None, switch=1e-6)
         judge(inputs, None, outs, None, "stress-switchinterval-1e-6")
+        stress_calls += n * per
+
+    # --- 3b. stress on what the semantic actions call (numerals of very different lengths, long phrases): state
+    # shared below the lexer / tracker level (a module-level context, buffer, counter) only shows here
+    numerals = ["price^12345678901234567890.5", "b^2", "colour~0.123456789012", "color~1", '"x y"~12345 z^0.000000001',
+                "a^1.50 b~.5 c^007", "q^99999999999999999999999999999999", "w~0.5"]
+    heavy_rounds = 3 if quick else 20
+    for i in range(heavy_rounds):
+        n = 4
+        per = 120 if quick else 400
+        inputs = [[numerals[(j + t * 3 + i) % len(numerals)] for j in range(per)] for t in range(n)]
+        outs, _ = rig.run(inputs, None, switch=1e-6)
+        judge(inputs, None, outs, None, "stress-numerals-switchinterval-1e-6")
         stress_calls += n * per
 
     # --- 4. sensitivity self-tests: the harness must FIND a failing schedule when the partition is broken
